@@ -643,6 +643,38 @@ def add_sources (rng, spec, nmax = 1):
     return spec
 # end def add_sources
 
+def curve_spec (rng):
+    """ arc / helix with wires on its ends, feeds on the wires """
+    from pmv.props import c02
+    spec = c02.curve_family (rng)
+    spec ['feeds'] = []
+    for g in spec ['geo']:
+        if g ['k'] == 'w' and g ['n'] >= 2:
+            p1, p2 = np.array (g ['p1']), np.array (g ['p2'])
+            k = int (rng.integers (1, g ['n']))
+            spec ['feeds'].append (dict (at = (p1 + (p2 - p1) * k / g ['n']).tolist (), dir = (p2 - p1).tolist ()))
+    return spec if spec ['feeds'] else None
+# end def curve_spec
+
+def taper_some (rng, spec, prob, kind = None):
+    """ taper wires (default limits) that carry no source or load placed by location """
+    marks = [np.array (x ['at']) for x in (spec.get ('src') or []) + (spec.get ('loads') or []) if 'at' in x]
+    n = 0
+    for g in spec ['geo']:
+        if g ['k'] == 'w' and g ['n'] >= 3 and not g.get ('taper') and rng.random () < prob:
+            p1, p2 = np.array (g ['p1']), np.array (g ['p2'])
+            d  = p2 - p1
+            on = any (np.linalg.norm (np.cross (d, x - p1)) < 1e-9 * (d @ d) and -1e-9 <= (x - p1) @ d / (d @ d) <= 1 + 1e-9 for x in marks)
+            if not on:
+                g ['taper'] = [int (rng.integers (1, 4)) if kind is None else kind, None, None]
+                n += 1
+    if n:
+        order, tg = __import__ ('pmv.oracles.georef', fromlist = ['x']).object_tags (spec ['geo'])
+        for g, t in zip (order, tg):
+            g ['tag'] = t
+    return n
+# end def taper_some
+
 def clean (spec):
     """ copy of a spec without generator bookkeeping, fit for replay files """
     return {k: v for k, v in spec.items () if k not in ('feeds',)}
